@@ -960,7 +960,7 @@ impl Check for C03 {
         let v: Vec<Box<dyn Sweep>> = vec![
             Box::new(Shapes),
             Box::new(Strings { n: tier.pick(4, 5), alpha: SIGMA.to_vec(), label: "sigma" }),
-            Box::new(Strings { n: tier.pick(5, 6), alpha: sub_alphabet(), label: "numeric-core" }),
+            Box::new(Strings { n: tier.pick(5, 7), alpha: sub_alphabet(), label: "numeric-core" }),
             // blanks that are not ASCII: no-break space, ideographic space, em space, line separator
             Box::new(Strings { n: tier.pick(4, 5), alpha: vec!["\u{a0}", "\u{3000}", "\u{2003}", "\u{2028}", " ", "\t", "1", "A", "\"", ":", "?"], label: "unicode-blanks" }),
             Box::new(TokenSeqs { k: tier.pick(2, 3) }),
@@ -978,7 +978,7 @@ impl Check for C03 {
         Meta {
             bound: match tier {
                 Tier::Quick => "every string of length <=4 over the 41-symbol lexical alphabet and of length <=5 over its 20-symbol numeric core, every sequence of <=2 tokens from 105 tokens, every single-token mutant (delete, swap, replace by / insert each of the 105 tokens) of a 47-line corpus, 31 nesting / repetition shapes at lengths around 255 and the 1024-byte limit (also as INPUT replies and INKEY$ keys) - each as a direct line, a stored line, and a stored line followed by RUN; two stored corpus lines followed by each of 23 commands and a follow-up command; every reply of <=4 symbols over {a, é, 日, comma, quote, blank, 1, -, ., &} to 5 INPUT statements with 1..3 variables and as an INKEY$ key; TAB / SPC / comma / POS at 24 columns 0..1024 of an unterminated output line (1- and 2-byte characters, 37 operations, direct and stored); and the UI protocol state machine (21 lines, replies, keys, execute(1|7|5000|until it asks), interrupt - also while a key or a reply is awaited -, snapshot take/drop, load ok/fail) to depth 6 from the empty interpreter and from a stored program".into(),
-                Tier::Thorough => "as quick with strings to length 5 (full alphabet) / 6 (numeric core; length 7 is 3.8e9 sessions, about five hours here, and was not kept in the tier), token sequences to length 3, pairs of mutations on corpus lines of <=14 tokens, every follow-up command in the stored-line sessions, replies to length 5, protocol depth 8".into(),
+                Tier::Thorough => "as quick with strings to length 5 (full alphabet) / 7 (numeric core: 3.8e9 sessions), token sequences to length 3, pairs of mutations on corpus lines of <=14 tokens, every follow-up command in the stored-line sessions, replies to length 5, protocol depth 8".into(),
             },
             rule: "a case is one entered text in one of three modes (or one protocol transition); verdict: no panic, every call returns (watchdog), and afterwards - after at most one interrupt - PRINT 1 prints ' 1 '; distinct_nontrivial counts shards / protocol states".into(),
             states_note: "states = distinct (full-state digest, protocol wait state, live snapshots) of the protocol search; transitions = protocol actions executed plus entered texts".into(),
